@@ -5,11 +5,12 @@ import FcpptModel.Model.C20
 * the **contracts** the C++ standard gives for the wrapped distributions ([rand.req.dist],
   [rand.dist.uni.int]) — these are *hypotheses* of the range theorems, never proved about libstdc++;
 * what the property says in terms of plain lists (`InInterval`, `ReachesBothEnds`);
-* three concrete engine/distribution pairs used as instances of the model's parameters:
+* concrete engine/distribution pairs used as instances of the model's parameters:
   `replayDist` (replays a recorded output sequence of the real `std::` pair — this is how the driver is
-  fed with libstdc++'s numbers), and the exactly specified pair `ctrEngine` / `modDist`
+  fed with libstdc++'s numbers; `tapeDist` / `tapeGen` do the same for programs with several distribution
+  objects on one engine), and the exactly specified pair `ctrEngine` / `modDist`
   (`harness/c20.cpp` contains the same two classes in C++, so that fcppt's templates are also run over
-  an engine and a distribution that are not from the standard library).
+  an engine and a *stateful* distribution that are not from the standard library).
 -/
 namespace Fcppt.C20
 
@@ -97,18 +98,51 @@ def ctrEngine : Gen Nat where
   min := 0
   max := 4294967295
 
-/-- `mod_dist<T>`: `a + g() % (b - a + 1)` for `a ≤ b` (the harness only uses `b - a < 2^31`);
-state = parameters. `min() = a`, `max() = b`. -/
-def modDist : StdDist Int (Int × Int) where
+/-- `mod_dist<T>`: a distribution *with internal state*: the parameters and the number `k` of values drawn
+since construction / `reset()` (a 32-bit counter).  `operator()` returns `a + (g() + k(k+1)/2) % (b - a + 1)` for
+`a ≤ b` (the harness only uses `b - a < 2^31`) and increments `k`; `param(p)` keeps `k`, `reset()` clears it,
+`==` compares parameters and `k`, `min() = a`, `max() = b`.  Because of `k`, drawing from a copy instead of
+the object itself, losing the state in a copy, or resetting where nothing should be reset changes the
+values that follow. -/
+def modDist : StdDist Int ((Int × Int) × Nat) where
+  ofParam := fun q => (q, 0)
+  param := fun d => d.1
+  setParam := fun d q => (q, d.2)
+  reset := fun d => (d.1, 0)
+  draw := fun {_} G d g =>
+    let r := G.next g
+    (d.1.1 + (Int.ofNat (r.1 + d.2 * (d.2 + 1) / 2)) % (d.1.2 - d.1.1 + 1), (d.1, (d.2 + 1) % 4294967296), r.2)
+  min := fun d => d.1.1
+  max := fun d => d.1.2
+  beq := fun a b => a.1.1 == b.1.1 && a.1.2 == b.1.2 && a.2 == b.2
+
+/-- `operator<<` of `mod_dist`: `a b k` -/
+def modOut (d : (Int × Int) × Nat) : String := s!"{d.1.1} {d.1.2} {d.2}"
+
+/-! ## instance 3: replay of a recorded `std::` run in which several distribution objects share one engine
+
+The outputs are read off the *generator* (the recorded values in the order in which they were produced), so
+that copies of a distribution need no tape of their own.  The distribution state is just the parameters;
+`==` is equality of the parameters (libstdc++'s `uniform_int_distribution` and `uniform_real_distribution`;
+for `normal_distribution` the driver only accepts comparisons where that is the whole story). -/
+
+def tapeGen : Gen (List Nat) :=
+  ⟨fun t => match t with | [] => (0, []) | x :: r => (x, r), 0, 0⟩
+
+def tapeDist {β : Type} [BEq β] (dec : Nat → β) (minF maxF : β × β → β) : StdDist β (β × β) where
   ofParam := fun q => q
   param := fun d => d
   setParam := fun _ q => q
   reset := fun d => d
   draw := fun {_} G d g =>
     let r := G.next g
-    (d.1 + (Int.ofNat r.1) % (d.2 - d.1 + 1), d, r.2)
-  min := fun d => d.1
-  max := fun d => d.2
+    (dec r.1, d, r.2)
+  min := fun d => minF d
+  max := fun d => maxF d
   beq := fun a b => a.1 == b.1 && a.2 == b.2
+
+/-- integers on a tape of naturals -/
+def zigzag (x : Int) : Nat := if x ≥ 0 then 2 * x.toNat else 2 * (-x).toNat - 1
+def unzigzag (n : Nat) : Int := if n % 2 = 0 then Int.ofNat (n / 2) else -Int.ofNat ((n + 1) / 2)
 
 end Fcppt.C20
